@@ -317,9 +317,29 @@ func (t *TermBuilder) Term(v ssa.Value) string {
 	case *ssa.FieldAddr:
 		return t.Term(x.X) + "." + fieldName(x.X.Type(), x.Field)
 	case *ssa.Alloc:
-		// array literal used for varargs etc.
+		// a local holding one value (sum := sha256.Sum256(x); sum[:]): the value; array literals etc. stay opaque
+		var only *ssa.Store
+		n := 0
+		for _, r := range *x.Referrers() {
+			switch y := r.(type) {
+			case *ssa.Store:
+				if y.Addr == x {
+					only, n = y, n+1
+				}
+			case *ssa.IndexAddr, *ssa.FieldAddr:
+				n += 2
+			}
+		}
+		if n == 1 {
+			if _, isCall := only.Val.(*ssa.Call); isCall {
+				return t.Term(only.Val)
+			}
+		}
 		return "alloc"
 	case *ssa.Phi:
+		if ts, ok := t.trimSuffixIdiom(x); ok {
+			return ts
+		}
 		if t.Bounds && !InCycle(x.Block()) {
 			// a join of alternatives (not loop-carried): keep the alternatives
 			var alts []string
@@ -336,6 +356,53 @@ func (t *TermBuilder) Term(v ssa.Value) string {
 		return t.callTerm(x)
 	}
 	return fmt.Sprintf("⊤%T", v)
+}
+
+// trimSuffixIdiom: p' := p; if strings.HasSuffix(p, s) { p' = p[:len(p)-len(s)] }  ≡  strings.TrimSuffix(p, s)
+func (t *TermBuilder) trimSuffixIdiom(ph *ssa.Phi) (string, bool) {
+	if len(ph.Edges) != 2 {
+		return "", false
+	}
+	for i := 0; i < 2; i++ {
+		whole, cut := ph.Edges[i], ph.Edges[1-i]
+		sl, ok := cut.(*ssa.Slice)
+		if !ok || sl.Low != nil || sl.High == nil || sl.X != whole {
+			continue
+		}
+		sub, ok := sl.High.(*ssa.BinOp)
+		if !ok || sub.Op != token.SUB {
+			continue
+		}
+		ln, ok := sub.X.(*ssa.Call)
+		if !ok {
+			continue
+		}
+		if b, isB := ln.Call.Value.(*ssa.Builtin); !isB || b.Name() != "len" || ln.Call.Args[0] != whole {
+			continue
+		}
+		k, ok := sub.Y.(*ssa.Const)
+		if !ok || k.Value == nil {
+			continue
+		}
+		// the cutting arm is entered only behind strings.HasSuffix(whole, s) with len(s) = k
+		pred := ph.Block().Preds[1-i]
+		for hops := 0; hops < 3 && pred != nil; hops++ {
+			if len(pred.Preds) != 1 {
+				break
+			}
+			up := pred.Preds[0]
+			if ifi, ok := up.Instrs[len(up.Instrs)-1].(*ssa.If); ok && up.Succs[0] == pred {
+				if c, ok := ifi.Cond.(*ssa.Call); ok && CalleeFullName(c) == "strings.HasSuffix" && c.Call.Args[0] == whole {
+					if sc, ok := c.Call.Args[1].(*ssa.Const); ok && sc.Value != nil && sc.Value.Kind() == constant.String &&
+						fmt.Sprint(len(constant.StringVal(sc.Value))) == k.Value.ExactString() {
+						return "strings.TrimSuffix(" + t.Term(whole) + "," + fmt.Sprintf("%q", constant.StringVal(sc.Value)) + ")", true
+					}
+				}
+			}
+			pred = up
+		}
+	}
+	return "", false
 }
 
 // elemTerm: an element selected by a loop variable is "some element" (elem(X)); a computed position is kept.
@@ -417,6 +484,13 @@ func (t *TermBuilder) callTerm(c *ssa.Call) string {
 		return concatTerm(parts)
 	case name == "encoding/hex.EncodeToString":
 		return "hex(" + t.Term(c.Call.Args[0]) + ")"
+	case strings.HasPrefix(name, "crypto/") && strings.Contains(name, ".Sum") && len(c.Call.Args) == 1:
+		// one-shot digest: sha256.Sum256(x) ≡ h := sha256.New(); h.Write(x); h.Sum(nil)
+		pkg := name[strings.LastIndex(name, "/")+1 : strings.LastIndex(name, ".")]
+		ctor := map[string]string{"sha256.Sum256": "sha256.New", "sha256.Sum224": "sha256.New224", "sha512.Sum512": "sha512.New", "sha1.Sum": "sha1.New", "md5.Sum": "md5.New"}[pkg+name[strings.LastIndex(name, "."):]]
+		if ctor != "" {
+			return ctor + "(" + concatTerm([]string{t.Term(c.Call.Args[0])}) + ")"
+		}
 	}
 	// hash.Sum(nil) typestate fold
 	if c.Call.IsInvoke() && c.Call.Method.Name() == "Sum" {
